@@ -84,13 +84,21 @@ static int loop_start(m_ctx_t *c, int max_events) {
 }
 
 static uint8_t loop_stop(m_ctx_t *c) {
-    c->state = M_CTX_IDLE;
-    
     /* Publish loop stopped system message */
     tell_system_pubsub_msg(NULL, c, NULL, M_PS_CTX_STOPPED);
     
-    /* Flush pubsub msg to avoid memleaks */
-    m_iterate(c->modules, flush_pubsub_msgs, NULL);
+    /*
+     * Flush pubsub msg to avoid memleaks.
+     * Iteration is interrupted whenever a callback (de)registers a module: 
+     * restart it, until every module has been flushed.
+     */
+    while (m_iterate(c->modules, flush_pubsub_msgs, NULL) == -EACCES);
+    
+    /*
+     * Only now switch state: callbacks called while flushing must still see a looping context,
+     * otherwise deregistering last module would destroy the context under our feet.
+     */
+    c->state = M_CTX_IDLE;
     
     /* Stop FS */
     fs_stop(c);
